@@ -100,3 +100,17 @@ Theorem verified_proof_sound : forall H hlen, (forall x, length (H x) = hlen) ->
   incl (pleaves p) (contents t) \/ collision H.
 Proof. exact Main.verified_proof_sound_l. Qed.
 Print Assumptions verified_proof_sound.
+
+(* restorer, over every sequence of starts, aborts, good, corrupt and duplicate
+   deliveries: a RestoreChunk call that ends the restore (done = true) is the
+   call that imports the last outstanding chunk; every other chunk index has
+   had a successful import since the restore was started.  (In the model one
+   RestoreChunk is one atomic step; the interleaving of concurrent calls is
+   exercised by the harness with a blocking reader.) *)
+Theorem done_only_after_every_import : forall H Hd decode root digests st0 evs i b s',
+  let g := grun H Hd decode root digests st0 evs in
+  rstep H Hd decode root digests (fst g) (EChunk i b) = (s', ROk) ->
+  active (fst g) = true -> active s' = false ->
+  forall j, (j < length digests)%nat -> j = i \/ In j (snd g).
+Proof. exact done_only_after_every_import_l. Qed.
+Print Assumptions done_only_after_every_import.
